@@ -1,6 +1,6 @@
 (* C02 — each node delivers committed blocks exactly once, in chain order. Pinned statements only. *)
 From Coq Require Import List NArith Sorted.
-From HS Require Import GTac Node Corr Monitors Proto Link NodeInv NodeLog Global GlobalLog Witness.
+From HS Require Import GTac Node Corr Monitors Proto Link NodeInv NodeLog Global GlobalLog Witness MonSound.
 Import ListNotations.
 Open Scope N_scope.
 
@@ -28,3 +28,14 @@ Check c02_fixed_genesis : chainb (log_of src_dq 3 [G3; G4; G5]) = true.
 Print Assumptions c02_fixed_genesis.
 Check c02_fixed_duplicate : chainb (log_of src_dq 3 [D1; D2; D3; D6; D7; D8]) = true.
 Print Assumptions c02_fixed_duplicate.
+(* monitor soundness: along every run of the node model (every deque discipline) the digests handed to the commit
+   channel, in emission order, ARE the ghost delivery log; so for a model run whose log is a chain the monitor that
+   the check evaluates on real traces returns true *)
+Check run_log : forall (c : Committee) (me : N) (dq : DqCfg) evs s,
+  match run c me dq evs s with (s', tr) => s_log s' = rev (cdig (flat_map fst tr)) ++ s_log s end.
+Print Assumptions run_log.
+Check mon_c02_complete : forall (c : Committee) (me : N) (dq : DqCfg) evs,
+  match run c me dq evs (init c) with (s', tr) => chain (s_log s') -> mon_c02_outs (flat_map fst tr) = true end.
+Print Assumptions mon_c02_complete.
+Check mon_c02_is : forall obs, mon_c02 obs = mon_c02_outs (outs_of obs).
+Print Assumptions mon_c02_is.
